@@ -150,14 +150,33 @@ def judge(chk, sc, o):
 
 
 def handover_tie(chk, sc, o, model):
-    """apply pools: what happened to the task the victim was handed, vs Mpire.Handover for the phase the victim was killed in"""
+    """apply pools: what happened to the task the victim was handed — and whether the pool could be joined afterwards —
+    vs Mpire.Handover for the phase the victim was killed in"""
     inj = o.get('injected') or {}
-    if sc['ops'][sc.get('judge_op', -1)]['op'] != 'apply_batch' or not inj or o.get('stuck') or o.get('harness_error'):
+    if sc['ops'][sc.get('judge_op', -1)]['op'] != 'apply_batch' or not inj or o.get('harness_error'):
         return
     if 'judge_op' in sc and inj.get('opi', sc['judge_op']) != sc['judge_op']:
         return
-    phase = {'apply_pill_taken': 'pill', 'apply_task_taken': 'task', 'job_announced': 'announced', 'in_user': 'announced'}.get(inj.get('victim_phase'))
-    if phase is None:
+    phase = {'apply_pill_taken': 'pill', 'apply_task_taken': 'task', 'job_announced': 'announced', 'in_user': 'announced',
+             'init_announced': 'init', 'init_ran': 'init', 'results_sent': 'resultsent'}.get(inj.get('victim_phase'))
+    if phase is None or phase not in model:
+        return
+    m = model[phase]
+    stuck = o.get('stuck')
+    # joinable: a follow-up stop_and_join / map on the pool got through join_task_queues
+    follow = [op['op'] for op in sc['ops'][sc.get('judge_op', 0) + 1:]] if 'judge_op' in sc else []
+    impl_join = None
+    if stuck and 'q.join tq' in str(stuck.get('info')):
+        impl_join = 0
+    elif not stuck and ('stop_and_join' in follow or 'map' in follow) and len(o.get('ops', [])) == len(sc['ops']) and \
+            all(x.get('outcome') == 'ok' for x in o['ops'][sc.get('judge_op', 0) + 1:]):
+        impl_join = 1
+    if impl_join is not None and phase in ('announced', 'resultsent'):
+        chk.count('apply hand-over under SIGKILL: can the pool be joined afterwards, vs Mpire.Handover.joinable', key=(phase, impl_join, str(sc['inject'])), nontrivial=True,
+                  sample={'phase': phase, 'impl_joinable': impl_join, 'model': m}, phase=phase, joinable=impl_join)
+        if ('joinable=%d' % impl_join) not in m:
+            chk.mismatch('apply hand-over under SIGKILL vs Mpire.Handover.joinable', {'scenario': sc, 'victim_phase': inj.get('victim_phase')}, 'joinable=%d' % impl_join, m)
+    if stuck:
         return
     last = o['ops'][sc.get('judge_op', -1)]
     bad = sorted(a for a in last.get('apply', []) if a[1] != 'ok')
@@ -172,10 +191,12 @@ def handover_tie(chk, sc, o, model):
     else:
         impl = 'ran-as-chunk'
     chk.count('apply hand-over under SIGKILL vs Mpire.Handover', key=(phase, impl, str(sc['inject'])), nontrivial=True,
-              sample={'phase': phase, 'impl': impl, 'model': model.get(phase)}, phase=phase, impl=impl)
+              sample={'phase': phase, 'impl': impl, 'model': m}, phase=phase, impl=impl)
     # a task that had already finished when the announced worker died completes normally: 'done' is compatible with 'announced'
-    if impl != model.get(phase) and not (phase == 'announced' and impl == 'done'):
-        chk.mismatch('apply hand-over under SIGKILL vs Mpire.Handover', {'scenario': sc, 'victim_phase': inj.get('victim_phase')}, impl, model.get(phase))
+    if impl != m.split(' ')[0] and not (phase == 'announced' and impl == 'done'):
+        chk.mismatch('apply hand-over under SIGKILL vs Mpire.Handover', {'scenario': sc, 'victim_phase': inj.get('victim_phase')}, impl, m)
+    if phase == 'init' and ('poolfailed=1' in m) != (len(bad) > 1 or bool(last.get('control', {}).get('exception_thrown'))):
+        chk.mismatch('apply hand-over under SIGKILL vs Mpire.Handover.poolFailed', {'scenario': sc}, {'failed': bad, 'flag': last.get('control', {}).get('exception_thrown')}, m)
 
 
 def judge_idle(chk, sc, o):
@@ -229,7 +250,8 @@ def run(chk):
         cls = judge(chk, sc, o)
         chk.count('corpus (minimised past failures, run first)', key=key_of(sc) + str(sc.get('inject')), nontrivial=True, sample={'scenario': sc, 'outcome': cls})
     bases = base_scenarios(rng, 6 if chk.tier == 'quick' else 80)
-    handover_model = dict(zip(['queued', 'pill', 'task', 'announced'], drv.run(['handover phase=%s' % p for p in ['queued', 'pill', 'task', 'announced']])))
+    phases = ['queued', 'pill', 'task', 'init', 'announced', 'resultsent']
+    handover_model = dict(zip(phases, drv.run(['handover phase=%s' % p for p in phases])))
     chk.notes['handover_model'] = handover_model
     bobs = inject.baseline(bases)
     swept = []
